@@ -462,6 +462,43 @@ def attribute_aliases(modules, canon):
     return out
 
 
+def _fold_module_aliases(tree):
+    """A module table built under a private name and published under another
+    by a plain `PUBLIC = _private` (after the view wrapper was removed: a
+    read-only view of a table filled at import time) is ONE table: when
+    nothing inside a function or class refers to the private name, the private
+    name is renamed to the public one and the alias statement dropped."""
+    top = tree.body
+    inner = set()
+    for st in top:
+        if isinstance(st, (ast.FunctionDef, ast.AsyncFunctionDef,
+                           ast.ClassDef)):
+            for n in ast.walk(st):
+                if isinstance(n, ast.Name):
+                    inner.add(n.id)
+    assigned = {}
+    for st in top:
+        if isinstance(st, ast.Assign) and len(st.targets) == 1 and \
+                isinstance(st.targets[0], ast.Name):
+            assigned.setdefault(st.targets[0].id, []).append(st)
+    for st in list(top):
+        if not (isinstance(st, ast.Assign) and len(st.targets) == 1 and
+                isinstance(st.targets[0], ast.Name) and
+                isinstance(st.value, ast.Name)):
+            continue
+        pub, priv = st.targets[0].id, st.value.id
+        if priv in inner or priv not in assigned or pub == priv or \
+                len(assigned.get(pub, ())) != 1:
+            continue
+        for other in top:
+            if other is st:
+                continue
+            for n in ast.walk(other):
+                if isinstance(n, ast.Name) and n.id == priv:
+                    n.id = pub
+        top.remove(st)
+
+
 class _Normalise(ast.NodeTransformer):
     """Spellings that mean the same are brought to one form before anything
     reads the tree (the interpreter and the syntax-reading rules alike):
@@ -472,6 +509,19 @@ class _Normalise(ast.NodeTransformer):
       D[k]; E / else: H` (look-before-you-leap and EAFP on a mapping without
       `__missing__`; every table this package subscripts that way is a plain
       dict)."""
+
+    def visit_Call(self, node):
+        # a read-only VIEW of a table reads like the table: the rules that
+        # read module tables see through types.MappingProxyType(<table>)
+        self.generic_visit(node)
+        f = node.func
+        if len(node.args) == 1 and not node.keywords and (
+                (isinstance(f, ast.Attribute) and
+                 f.attr == 'MappingProxyType' and
+                 isinstance(f.value, ast.Name) and f.value.id == 'types') or
+                (isinstance(f, ast.Name) and f.id == 'MappingProxyType')):
+            return node.args[0]
+        return node
 
     def visit_With(self, node):
         self.generic_visit(node)
@@ -568,6 +618,7 @@ class Module:
         except SyntaxError as e:
             raise AnalysisError('%s does not parse: %s' % (relpath, e))
         self.tree = _Normalise().visit(self.tree)
+        _fold_module_aliases(self.tree)
         ast.fix_missing_locations(self.tree)
         self.funcs = {}      # top-level name -> FuncInfo
         self.classes = {}    # name -> ClassInfo
